@@ -41,7 +41,7 @@ def stamp_rules(ctx, m, prefix="stamp"):
     if okw:
         b = bin_of(ws[0].val)
         okw = b is not None and b[0] == "Add" and b[1] == r and b[2][0] == "const" and b[2][3] == 1
-        rets = f.body.return_blocks()
+        rets = q.body.return_blocks()
         okw = okw and all(q.cfg.all_paths_pass(0, rb, [ws[0].b]) for rb in rets)
     ctx.check(okw, prefix, "counter-advance", ws[0].loc() if ws else ctx.loc(f), "counter := returned stamp + 1, unconditionally, on every path",
               "the counter is not set to (returned stamp + 1) exactly once on every path: %s" % "; ".join(w.text() for w in ws))
